@@ -435,7 +435,7 @@ def _probes() -> Dict[str, int]:
     return {k: 0 for k in ["loads", "readbacks", "merges", "merge_files", "compares", "node_compares", "equal_pairs_judged", "unequal_pairs_judged",
                            "annotation_only_pair", "alias_compared", "flip_kept_valid", "fault_schema_invalid", "fault_not_json", "gate_invocations",
                            "gate_prepopulated", "second_file_bad", "violation_class_fired", "edits_applied", "edits_with_rare_kinds", "load_rejected_valid",
-                           "plugin_probe_unavailable", "reloads_same_objects", "first_file_bad", "default_model_bad", "truncation_points", "unreadable_enoent", "unreadable_eio", "unreadable_directory", "metadata_first_file"]}
+                           "plugin_probe_unavailable", "reloads_same_objects", "first_file_bad", "default_model_bad", "truncation_points", "cross_class_compares", "twin_nodes_built", "merge_with_duplicates", "merge_with_empty_section", "merge_same_object_twice", "unreadable_enoent", "unreadable_eio", "unreadable_directory", "metadata_first_file"]}
 
 
 def _result(t: Dict[str, Any], viol: List[Dict[str, str]], probes: Dict[str, int], skipped: Optional[str] = None, evlog: Any = None) -> Dict[str, Any]:
@@ -501,6 +501,72 @@ def _compare_models(loads: List[Tuple[Dict[str, Any], Any]], r: random.Random, p
                     return
 
 
+def _class_matrix(m: Any, r: random.Random, probes: Dict[str, int], viol: List[Dict[str, str]]) -> None:
+    """One node per node class of a loaded model (plus a few foreign values), all ordered pairs:
+    comparing never raises, == is symmetric, != is its negation."""
+    attrs = G["attrs"]
+    per_class: Dict[str, Any] = {}
+    stack = [m]
+    seen = 0
+    while stack and seen < 4000:
+        x = stack.pop()
+        seen += 1
+        if attrs.has(type(x)):
+            nm = type(x).__name__
+            if nm not in per_class or r.random() < 0.05:
+                per_class[nm] = x
+            for a in attrs.fields(type(x)):
+                v = getattr(x, a.name)
+                stack.extend(v if isinstance(v, list) else [v])
+    nodes = list(per_class.values()) + [None, {}, {"kind": "base", "name": "string"}, "string", 0, [], ()]
+    # twins: a node of ANOTHER class built from the same content (e.g. ReferenceMapKeyType vs
+    # ReferenceType of the same name, BaseType vs EnumValueType vs BaseMapKeyType, OrType vs AndType):
+    # the pairing in which duck-typed or one-sided comparisons go wrong
+    gm = G["gm"]
+    classes = [c for c in vars(gm).values() if isinstance(c, type) and attrs.has(c)]
+    twins: List[Tuple[Any, Any]] = []
+    for a in list(per_class.values()):
+        content = readback(a)
+        if not isinstance(content, dict):
+            continue
+        for c in classes:
+            if c is type(a) or len(twins) > 40:
+                continue
+            for variant in (content, {**content, "kind": getattr(c, "__name__", "")[:0] or content.get("kind")}):
+                try:
+                    twins.append((a, c(**copy.deepcopy(variant))))
+                    probes["twin_nodes_built"] += 1
+                    break
+                except Exception:
+                    pass
+    for a, b in twins:
+        probes["cross_class_compares"] += 1
+        try:
+            ab, ba, nab, nba = (a == b), (b == a), (a != b), (b != a)
+        except Exception as e:
+            viol.append({"sig": f"compare-raised:{norm_exc(e)}", "msg": f"comparing a {type(a).__name__} with a {type(b).__name__} of the same content raised {core.fmt_exc(e)}"})
+            return
+        if bool(ab) != bool(ba) or bool(ab) == bool(nab) or bool(ba) == bool(nba):
+            names = sorted([type(a).__name__, type(b).__name__])
+            viol.append({"sig": f"compare-inconsistent:{names[0]}-{names[1]}",
+                         "msg": f"{type(a).__name__} vs {type(b).__name__} built from the same content {str(readback(a))[:80]}: a==b is {ab}, b==a is {ba}, a!=b is {nab}, b!=a is {nba}"})
+            return
+    for i, a in enumerate(nodes):
+        for b in nodes[i:]:
+            if not (attrs.has(type(a)) or attrs.has(type(b))):
+                continue
+            probes["cross_class_compares"] += 1
+            try:
+                ab, ba, nab = (a == b), (b == a), (a != b)
+            except Exception as e:
+                viol.append({"sig": f"compare-raised:{norm_exc(e)}", "msg": f"comparing a {type(a).__name__} with a {type(b).__name__} raised {core.fmt_exc(e)}"})
+                return
+            if bool(ab) != bool(ba) or bool(ab) == bool(nab):
+                viol.append({"sig": "compare-inconsistent:" + "-".join(sorted([type(a).__name__, type(b).__name__])),
+                             "msg": f"{type(a).__name__} vs {type(b).__name__}: a==b is {ab}, b==a is {ba}, a!=b is {nab}"})
+                return
+
+
 def _inner_nodes(x: Any, out: Optional[List[Any]] = None, depth: int = 0) -> List[Any]:
     """Typed nodes below x, found by walking attrs fields (not through the model's own helpers)."""
     attrs = G["attrs"]
@@ -549,6 +615,8 @@ def run_history(t: Dict[str, Any]) -> Dict[str, Any]:
             viol.append({"sig": f"readback-differs:{path_class(diff)}", "msg": f"{tag}: loaded model read back differs from the document at {diff}"})
         loads.append((copy.deepcopy(d), m))
         _compare_models(loads, r, probes, viol)
+        if len(loads) % 3 == 1:
+            _class_matrix(m, r, probes, viol)
         return True
 
     try:
@@ -598,6 +666,26 @@ def run_history(t: Dict[str, Any]) -> Dict[str, Any]:
                     for p in parts[1:]:
                         p["metaData"] = {"version": "later-file-" + p["metaData"]["version"]}
                     probes["metadata_first_file"] += 1
+                variant = sr.choice(["plain", "plain", "dup", "empty_first", "empty_later", "same_object"])
+                if variant == "dup" and len(parts) >= 2:
+                    # a later file re-declares something an earlier one has: concatenation keeps both
+                    for sec in models.SECTIONS:
+                        if parts[0][sec] and sr.random() < 0.6:
+                            parts[-1][sec].append(copy.deepcopy(sr.choice(parts[0][sec])))
+                    probes["merge_with_duplicates"] += 1
+                elif variant == "empty_first":
+                    sec = sr.choice(models.SECTIONS)
+                    parts[1][sec] = parts[0][sec] + parts[1][sec]
+                    parts[0][sec] = []
+                    probes["merge_with_empty_section"] += 1
+                elif variant == "empty_later":
+                    sec = sr.choice(models.SECTIONS)
+                    parts[0][sec] = parts[0][sec] + parts[-1][sec]
+                    parts[-1][sec] = []
+                    probes["merge_with_empty_section"] += 1
+                elif variant == "same_object":
+                    parts = parts + [parts[0]]  # the same parsed document object twice in the list
+                    probes["merge_same_object_twice"] += 1
                 if not all(ref.is_valid(p) for p in parts):
                     evlog.append(["SPLIT-invalid"])
                     continue
@@ -637,7 +725,7 @@ def run_history(t: Dict[str, Any]) -> Dict[str, Any]:
                         viol.append({"sig": "merge-unequal-to-single-load", "msg": f"op {oi}: merged model compares unequal to the single-file load of the same declarations"})
                 except Exception as e:
                     viol.append({"sig": f"compare-raised:{norm_exc(e)}", "msg": f"comparing merged and single models raised {core.fmt_exc(e)}"})
-                evlog.append(["SPLIT", op[1]])
+                evlog.append(["SPLIT", op[1], variant])
             elif kind == "FAULT":
                 fr = random.Random(op[2])
                 data = models.dumps(doc, fr)
@@ -906,7 +994,7 @@ def main(argv: List[str]) -> int:
         "run_kinds": kinds,
         "violation_classes_total": classes_total,
         "violation_classes_fired": classes_fired,
-        "faults_fired": {k: probes.get(k, 0) for k in ["fault_not_json", "fault_schema_invalid", "flip_kept_valid", "second_file_bad", "first_file_bad", "default_model_bad", "truncation_points", "violation_class_fired",
+        "faults_fired": {k: probes.get(k, 0) for k in ["fault_not_json", "fault_schema_invalid", "flip_kept_valid", "second_file_bad", "first_file_bad", "default_model_bad", "truncation_points", "cross_class_compares", "twin_nodes_built", "merge_with_duplicates", "merge_with_empty_section", "merge_same_object_twice", "violation_class_fired",
                                                         "unreadable_enoent", "unreadable_eio", "unreadable_directory", "gate_prepopulated"]},
         "probes": probes,
         "skipped": skipped,
